@@ -6,6 +6,9 @@
  *   5  graph cancelled (the scheduler calls cancel() instead of execute() from now on)
  *   6 / 7  graph.reserve_wait() / release_wait()    8  a worker runs a solver-chosen task (oldest or newest)
  *   9  successor 0 re-registers (what a rejecting successor does after a failed pull)
+ *   12 / 13  recovery after op 5: wait_for_all (every pending task gets cancel()), reserve_waits released, then the real graph::reset()
+ *            with default flags (12) / with RESETFLAGS (13: rf_reset_bodies = 1, rf_clear_edges = 2); afterwards the node must behave
+ *            like a fresh one (the reset_reuse family): messages accepted before and not yet processed are discarded by design
  * NESTB / NESTS: bit k set = during the k-th body invocation / k-th offer to a successor another try_put arrives (sequential image
  * of a put that overlaps a running body / the forwarding step).
  * Oracle (see NOTES.md): conservation ledger per message (accepted <=> body exactly once <=> output offered exactly once to every
@@ -49,7 +52,7 @@ static u8* typed_new(u64 n) { if (n == vp_queue_objsize() && !queue_given) { que
 static const int ops[] = { OPS };
 #define NOPS ((int)(sizeof ops / sizeof ops[0]))
 #define MAXM 8
-enum { ST_NONE = 0, ST_INPUT, ST_ACCEPTED, ST_RUNNING, ST_DONE, ST_REJECTED };
+enum { ST_NONE = 0, ST_INPUT, ST_ACCEPTED, ST_RUNNING, ST_DONE, ST_REJECTED, ST_DROPPED };
 static int msg_v[MAXM]; static int msg_st[MAXM]; static unsigned nmsg;
 static unsigned off[MAXM][3], want[MAXM][3];
 static unsigned succ_push[3];        /* edge to successor s is in push mode (registered in the node's successor cache) */
@@ -59,7 +62,10 @@ static unsigned cancelled, nreserved, task_body_pending, in_task;
 static unsigned live_ext, live_arena; static u8 owner_arena[2][TASKMAX];
 static unsigned src_left, src_given, n_regsucc, pred_added;
 static unsigned fifo_next;           /* serial queueing: index of the next message whose body must start */
-static unsigned nput_true;
+static unsigned nput_true, ndropped, in_reset;
+#ifndef RESETFLAGS
+#define RESETFLAGS 3
+#endif
 
 /* r1::get_thread_reference_vertex(top): the calling arena thread's reference vertex for that wait context (src/tbb/task.cpp:
    found or created with count 0 in the thread's map). One worker thread (vertex 0); the attached external thread has vertex 1. */
@@ -144,7 +150,9 @@ u32 vp_src_get(u32* v) {
   msg_v[nmsg] = x; msg_st[nmsg] = ST_ACCEPTED; nmsg++; src_left--; src_given++;
   *v = (u32)x; return 1;
 }
-void vp_src_regsucc(void) { n_regsucc++; VP_ASSERT(n_regsucc == 1 && src_left == 0, "node gave the edge back although the predecessor still has items / twice"); }
+void vp_src_regsucc(void) {
+  if (in_reset) { VP_ASSERT(pred_added && n_regsucc == 0, "reset handed back an edge that was not in pull mode"); n_regsucc++; return; }   /* predecessor_cache::reset() */
+  n_regsucc++; VP_ASSERT(n_regsucc == 1 && src_left == 0, "node gave the edge back although the predecessor still has items / twice"); }
 
 static unsigned do_put(void) {
   VP_ASSERT(nmsg < MAXM, "VP bound: messages");
@@ -194,7 +202,7 @@ static void settled(void) {
 static void run(unsigned accpat, unsigned flippat) {
   fg_reset(); queue_given = 0;
   nmsg = 0; running = inline_running = body_tasks_created = task_bodies_finished = nbody = nsinkcall = noffer = 0; acc_bits = accpat; flip_bits = flippat;
-  cancelled = nreserved = task_body_pending = in_task = 0; live_ext = live_arena = 0; src_left = AVAIL; src_given = n_regsucc = pred_added = 0; fifo_next = 0; nput_true = 0;
+  cancelled = nreserved = task_body_pending = in_task = 0; live_ext = live_arena = 0; src_left = AVAIL; src_given = n_regsucc = pred_added = 0; fifo_next = 0; nput_true = 0; ndropped = 0; in_reset = 0;
   for (unsigned i = 0; i < MAXM; i++) { msg_st[i] = ST_NONE; for (unsigned s = 0; s < 3; s++) off[i][s] = want[i][s] = 0; }
   for (unsigned k = 0; k < 2; k++) for (unsigned i = 0; i < TASKMAX; i++) owner_arena[k][i] = 0xff;
   for (unsigned s = 0; s < 3; s++) succ_push[s] = s < NSUCC;
@@ -212,6 +220,27 @@ static void run(unsigned accpat, unsigned flippat) {
     else if (op == 6) { vp_reserve_wait(); nreserved++; }
     else if (op == 7) { if (nreserved) { vp_release_wait(); nreserved--; } }
     else if (op == 9) { if (!succ_push[0]) { vp_add_succ(0); succ_push[0] = 1; } }
+    else if (op == 12 || op == 13) {
+      unsigned flags = op == 12 ? 0 : RESETFLAGS;
+      cancelled = 1;                                           /* g.cancel(); g.wait_for_all(): */
+      for (int i = 0; i < BAGRUNS; i++) run_one(0);
+      VP_ASSERT(bag_n == 0, "VP bound: tasks still pending after BAGRUNS cancellations");
+      while (nreserved) { vp_release_wait(); nreserved--; }
+      VP_ASSERT(vp_graph_refs() == 0, "graph wait count not 0 after every pending task was cancelled (wait_for_all would hang)");
+      unsigned had_pull_edge = pred_added && n_regsucc == 0;
+      unsigned ctx0 = n_ctx_reset;
+      in_reset = 1; vp_graph_reset(flags); in_reset = 0;    /* g.reset(flags) */
+      VP_ASSERT(n_ctx_reset == ctx0 + 1, "graph::reset did not reset the task_group_context exactly once");
+      VP_ASSERT(vp_graph_active(), "graph left inactive by reset()");
+      /* WB: every piece of per-node protocol state is back to its initial value */
+      VP_ASSERT(vp_conc() == 0 && vp_qsize() == 0 && vp_fwd_busy() == 0 && vp_npred() == 0, "reset() left protocol state behind (concurrency count / input queue / forwarder_busy / cached predecessor)");
+      VP_ASSERT(bag_n == 0 && vp_graph_refs() == 0, "reset() spawned a task / touched the wait count");
+      if (!(flags & 2)) VP_ASSERT(!had_pull_edge || n_regsucc == 1, "reset() (edges kept) did not hand a cached predecessor edge back to push mode");
+      else { VP_ASSERT(n_regsucc == 0 || !had_pull_edge, "reset(rf_clear_edges) re-registered with a predecessor"); for (unsigned s2 = 0; s2 < 3; s2++) succ_push[s2] = 0; }
+      /* a fresh epoch: what was accepted and not processed is discarded (documented effect of cancel + reset) */
+      for (unsigned k = 0; k < nmsg; k++) if (msg_st[k] == ST_ACCEPTED || msg_st[k] == ST_INPUT) { msg_st[k] = ST_DROPPED; ndropped++; }
+      cancelled = 0; body_tasks_created = task_bodies_finished = inline_running = 0; fifo_next = nmsg; pred_added = 0; n_regsucc = 0;
+    }
     settled();
   }
   /* quiescence: what wait_for_all does - run every task (and what they spawn) */
@@ -221,14 +250,14 @@ static void run(unsigned accpat, unsigned flippat) {
   VP_ASSERT(vp_graph_refs() == 0, "graph wait count not back to 0 although nothing is pending");
   VP_ASSERT(n_alloc[0] + n_alloc[1] == n_free, "a finished task was not deallocated / deallocated twice");
   if (!cancelled) {
-    for (unsigned k = 0; k < nmsg; k++) VP_ASSERT(msg_st[k] == ST_DONE || msg_st[k] == ST_REJECTED, "an accepted message was never processed (lost)");
+    for (unsigned k = 0; k < nmsg; k++) VP_ASSERT(msg_st[k] == ST_DONE || msg_st[k] == ST_REJECTED || msg_st[k] == ST_DROPPED, "an accepted message was never processed (lost)");
     VP_ASSERT(vp_qsize() == 0, "input queue not empty at quiescence");
     if (CONC != 0) VP_ASSERT(vp_conc() == 0, "concurrency count not back to 0 at quiescence");
     if (pred_added) VP_ASSERT(src_left == 0 && n_regsucc == 1 && vp_npred() == 0 && vp_fwd_busy() == 0, "items left at the predecessor / edge not handed back at quiescence");
   }
   unsigned ndone = 0; for (unsigned k = 0; k < nmsg; k++) ndone += msg_st[k] == ST_DONE;
   VP_ASSERT(ndone == nbody, "number of body invocations differs from the number of processed messages");
-  if (!cancelled) VP_ASSERT(nbody == nput_true + src_given, "body invocations != accepted messages");
+  if (!cancelled) VP_ASSERT(nbody + ndropped == nput_true + src_given, "body invocations != accepted messages");
 }
 static const unsigned accs[] = { ACCS };
 #ifndef FLIPS
